@@ -55,6 +55,8 @@ fn programs() -> Vec<Prog> {
 fn common_events() -> Vec<Ev> {
     let mut v: Vec<Ev> = [
         "X=5", "S$=\"z\"", "DIM A(3)", "A(1)=2", "FOR I=1 TO 9", "READ Q", "RUN", "CONT", "PRINT 1/0", "INPUT X",
+        // program edits: the probe compares with a fresh interpreter holding the *edited* program
+        "50", "50 DATA 33,44", "15 PRINT \"e\";", "IF 1 THEN PRINT (((1/0)))",
     ]
     .iter()
     .map(|l| Ev::Line(l.to_string()))
@@ -108,6 +110,19 @@ pub fn run(thorough: bool) -> Report {
             probe_count.fetch_add(1, std::sync::atomic::Ordering::Relaxed);
             let mk = || Sess::new();
             let mut s = replay(&mk, hist);
+            // the reference: a fresh interpreter given the program as it is listed now
+            let fresh = {
+                let mut l = replay(&mk, hist);
+                l.recs.clear();
+                let _ = l.apply(&Ev::Line("LIST".into()));
+                let lines: Vec<String> = l.recs.iter().filter_map(|r| if let Rec::Print(p) = r { Some(p.trim_end_matches('\n').to_string()) } else { None }).collect();
+                let mut f = Sess::new();
+                for line in &lines {
+                    let _ = f.apply(&Ev::Line(line.clone()));
+                }
+                f.it.randomize(12345);
+                drive_run(&mut f)
+            };
             let r = guarded(|| {
                 s.it.randomize(12345);
                 drive_run(&mut s)
